@@ -170,7 +170,7 @@ def check_C05(ctx):
                           % (a["trace"], a["outcome"], exp_trace, end), case=c)
     ctx.sample({"depth": 2, "hooks": "B0=ret B1=panic(5) A=ret F1=exit(3) F0=ret",
                 "expected": "B:app B:app/c1 F:app -> panic user:5"})
-    return ("all 5^(2d+1) assignments of {absent, returns, panics, exits, fails with a run-time error} to the callbacks of a path of depth d "
+    return ("all 5^(2d+1) (6^(2d+1) for d <= 2: a negative exit status too) assignments of {absent, returns, panics, exits, fails with a run-time error} to the callbacks of a path of depth d "
             "(Action present) for d in %s, plus random assignments for depth <= 6 under all three policies; "
             "distinct = distinct (tree, argv); every case is non-trivial (at least the Action runs or is skipped)" % depths)
 
